@@ -264,7 +264,7 @@ func (c *Ctx) ruleCondRow() {
 				if !c.isFieldLoad(e3, "condition.ex") {
 					okU := false
 					if e3.K == "X" && e3.N == 0 && e3.A != nil && e3.A.K == "V" {
-						if call, ok := e3.A.V.(*ssa.Call); ok && c.calleeName(&call.Call) == "Stack.Unmarshal" {
+						if call, ok := e3.A.V.(*ssa.Call); ok && (c.calleeName(&call.Call) == "Stack.Unmarshal" || c.calleeName(&call.Call) == "Condition.Unmarshal") {
 							okU = true
 						}
 					}
